@@ -8,6 +8,7 @@ import (
 	"errors"
 	"fmt"
 	"io"
+	"runtime"
 	"sort"
 	"sync"
 	"time"
@@ -141,6 +142,7 @@ type qStream struct {
 	frag   func() int
 	total  uint64
 	wire   bytes.Buffer // everything ever written (for the independent decoder)
+	park   func() int   // how often a Write is descheduled before it takes the bytes (flow control)
 }
 
 func newQStream(frag func() int) *qStream {
@@ -152,6 +154,13 @@ func newQStream(frag func() int) *qStream {
 func (q *qStream) StreamID() quic.StreamID { return 0 }
 
 func (q *qStream) Write(p []byte) (int, error) {
+	// a stream write may wait for flow-control credit while it holds the caller's slice; it reads
+	// the bytes only when it proceeds (io.Writer: p may be read at any time until Write returns)
+	if q.park != nil {
+		for k := q.park(); k > 0; k-- {
+			runtime.Gosched()
+		}
+	}
 	q.mu.Lock()
 	defer q.mu.Unlock()
 	if q.closed {
@@ -334,6 +343,7 @@ func runC13(s *Sim) {
 	var A, B transport.Transport
 	var wireFrames func() [][]byte
 	var carried func() uint64
+	var delivered func() uint64 // bytes that reached the peer (datagrams written beside the stream are not forwarded here)
 	switch kind {
 	case "websocket":
 		ca, cb := newWSPair(s, frag, frag)
@@ -352,6 +362,31 @@ func runC13(s *Sim) {
 			return
 		}
 		A, B = ta, tb
+		if t.Bool("quic-park-writes", 1, 2) {
+			px := splitmix{s: s.T.Seed ^ 0x99}
+			var pmu sync.Mutex
+			qa.send.park = func() int { pmu.Lock(); defer pmu.Unlock(); return int(px.next() % 4) }
+		}
+		// a second encoder on the same transport: datagram messages written while stream writes are
+		// in progress (their delivery is judged by C14, here they only have to leave the stream alone)
+		if ndg := Pick(t, "quic-datagram-writers", 0, 0, 1, 2); ndg > 0 {
+			if ua, ok := ta.AsUnreliable(); ok {
+				s.Stat("env.datagram-writes-beside-stream-writes")
+				for g := 0; g < ndg; g++ {
+					g := g
+					msgs := make([][]byte, nMsgs)
+					for k := range msgs {
+						msgs[k] = messageOfSize(t, Pick(t, "dg-size", 1, 200, 900, 3000), fmt.Sprintf("dg%d-%d", g, k))
+					}
+					go func() {
+						for _, m := range msgs {
+							_ = ua.Write(m)
+							runtime.Gosched()
+						}
+					}()
+				}
+			}
+		}
 		wireFrames = func() [][]byte {
 			// independent parser of the documented framing: 4-byte big-endian length, payload
 			qa.send.mu.Lock()
@@ -368,7 +403,19 @@ func runC13(s *Sim) {
 			}
 			return out
 		}
-		carried = func() uint64 { qa.send.mu.Lock(); defer qa.send.mu.Unlock(); return qa.send.total }
+		delivered = func() uint64 { qa.send.mu.Lock(); defer qa.send.mu.Unlock(); return qa.send.total }
+		carried = func() uint64 {
+			qa.send.mu.Lock()
+			n := qa.send.total
+			qa.send.mu.Unlock()
+			// datagrams are carried by the connection too
+			qa.dgMu.Lock()
+			for _, d := range *qa.dgOut {
+				n += uint64(len(d))
+			}
+			qa.dgMu.Unlock()
+			return n
+		}
 	}
 	// writers and one reader run as plain bubble goroutines; the scheduler only advances time
 	var mu sync.Mutex
@@ -500,8 +547,11 @@ func runC13(s *Sim) {
 	if tx := A.TxBytesCounterValue(); tx != carried() {
 		s.Violate("C13.tx-counter", kind, "%s: TxBytesCounterValue=%d, the connection carried %d bytes", desc, tx, carried())
 	}
-	if rx := B.RxBytesCounterValue(); readErr == nil && len(got) == total && rx != carried() {
-		s.Violate("C13.rx-counter", kind, "%s: RxBytesCounterValue=%d, the connection carried %d bytes", desc, rx, carried())
+	if delivered == nil {
+		delivered = carried
+	}
+	if rx := B.RxBytesCounterValue(); readErr == nil && len(got) == total && rx != delivered() {
+		s.Violate("C13.rx-counter", kind, "%s: RxBytesCounterValue=%d, the connection carried %d bytes to the peer", desc, rx, delivered())
 	}
 	var readSizes []int
 	for _, m := range got {
@@ -648,7 +698,9 @@ func runC14(s *Sim) {
 			lost map[int]bool
 			done int
 			out  []byte
+			dup  bool
 		}
+		dupSegs := t.Bool("duplicates", 1, 3)
 		var ms []*mm
 		var pool [][2]int
 		for i := 0; i < nm; i++ {
@@ -666,6 +718,15 @@ func runC14(s *Sim) {
 			}
 			for j := range segs {
 				pool = append(pool, [2]int{i, j})
+			}
+			if dupSegs && t.Bool("dup-this", 1, 2) {
+				// the network delivers one datagram of this message twice
+				j := t.Choose("dup-idx", len(segs))
+				if !m.lost[j] {
+					pool = append(pool, [2]int{i, j})
+					m.dup = true
+					s.Stat("fault.datagram-duplicated")
+				}
 			}
 			ms = append(ms, m)
 		}
@@ -694,6 +755,9 @@ func runC14(s *Sim) {
 		}
 		for i, m := range ms {
 			complete := len(m.lost) == 0
+			if complete && m.dup && len(m.segs) == 1 && m.done == 2 {
+				continue // a single-datagram message that the network duplicated is two messages
+			}
 			if complete && m.done != 1 {
 				s.Violate("C14.not-reassembled", "interleaved", "message %d (%d bytes, %d segments, seq %d) arrived completely among %d interleaved messages but was handed up %d times", i, len(m.msg), len(m.segs), base+uint32(i), nm, m.done)
 			}
@@ -818,6 +882,7 @@ func runC14Quic(s *Sim, P int, malformed bool) {
 		return
 	}
 	ua, _ := ta.AsUnreliable()
+	ua2, _ := ta.AsUnreliable()
 	ub, _ := tb.AsUnreliable()
 	nm := Pick(t, "q-nmsgs", 3, 1, 6)
 	type qm struct {
@@ -830,7 +895,17 @@ func runC14Quic(s *Sim, P int, malformed bool) {
 		k := Pick(t, "q-k", 1, 2, 4, 9)
 		size := (k-1)*P + Pick(t, "q-tail", 0, 1, P)
 		m := &qm{msg: messageOfSize(t, size, fmt.Sprintf("dg%d", i))}
-		if err := ua.Write(m.msg); err != nil {
+		// the application may use several handles of one transport (and the transport itself)
+		var err error
+		switch Pick(t, "q-path", "handle-1", "handle-1", "handle-2", "transport") {
+		case "handle-2":
+			err = ua2.Write(m.msg)
+		case "transport":
+			err = ta.WriteUnreliable(m.msg)
+		default:
+			err = ua.Write(m.msg)
+		}
+		if err != nil {
 			s.Violate("C14.sender-refuses-valid", "quic", "unreliable Write of %d bytes: %v", size, err)
 			return
 		}
